@@ -25,6 +25,19 @@ SP = "ragc_core::splitters::"
 SORT = re.compile(r"::(radix_sort_unstable|sort|sort_unstable|sort_by\w*|sort_unstable_by\w*|par_sort\w*)$")
 
 
+def _reaches(g, a, b, within):
+    seen, st = set(), [a]
+    while st:
+        x = st.pop()
+        if x == b:
+            return True
+        if x in seen:
+            continue
+        seen.add(x)
+        st.extend(s for s in g.succ[x] if s in within or s == b)
+    return False
+
+
 def run(F, rep):
     rep.explanation = EXPLANATION
     rep.undecided = UNDECIDED
@@ -165,6 +178,80 @@ def run(F, rep):
             revs = [L for L in for_loops(f, ex) if contains(L["source"], lambda x: isinstance(x, tuple) and x[0] == "call" and re.search(r"Iterator>?::rev$", x[1]))]
             rep.ob("C11-P4", "%s picks the right-most candidate at the contig end (reverse scan of the recent k-mers)" % f.key.rsplit("::", 1)[-1], len(revs) == 1,
                    site="%s:%d" % (f.file, f.line_lo), key="C11-P4 | %s | end candidate" % f.key)
+    # ------------------------------------------------------------ P6: counting pass and second pass see the same windows
+    # Both scan every base of every contig and act when the window is full.  A scanner may skip a contig only when
+    # it is shorter than k (no window at all): any other shortcut makes the singleton counts and the second pass
+    # disagree about which k-mers exist.
+    from mirutil import cond_to_le0, implies_le0, linear, lin_sub
+    scanners = [f for f in F.funcs.values() if re.search(r"^ragc_core::(kmer_extract::enumerate_kmers|splitters::find_actual_splitters_in_contig(_named)?)$", f.key)]
+    rep.floor("C11-P6", len(scanners), 3, "k-mer scanners (counting pass, two second-pass bodies)")
+    for f in scanners:
+        ex = Exprs(f)
+        g = cfg_of(f)
+        name = f.key.rsplit("::", 1)[-1]
+        ins = [bi for bi, t in f.calls() if not t.get("indirect") and t["callee"].endswith("kmer::Kmer::insert")]
+        L = [x for x in for_loops(f, ex) if ins and ins[0] in x["body"]]
+        if not L:
+            rep.ob("C11-P6", "%s scans the contig in a loop" % name, False, key="C11-P6 | %s | loop" % f.key)
+            continue
+        L = min(L, key=lambda x: len(x["body"]))
+        src = fmt(strip_tags(L["source"]))
+        whole = "contig" in src and not re.search(r"::(skip|take|step_by|windows|chunks|rev)\b|Range", src)
+        rep.ob("C11-P6", "%s feeds every base of the contig to the window, in order" % name, whole, detail=src[:120], site=L["site"], key="C11-P6 | %s | whole contig" % f.key)
+        # exits that bypass the loop
+        head = L["head"]
+        seen, st = set(), [0]
+        while st:
+            b = st.pop()
+            if b in seen or b == head or f.blocks[b]["cleanup"]:
+                continue
+            seen.add(b)
+            st.extend(g.succ[b])
+        rets = [b for b in seen if f.blocks[b]["term"]["k"] == "return"]
+        bad = []
+        nby = 0
+        if rets:
+            # blocks from which the return is reachable without the loop: the guards are the switches with one arm inside and one arm outside
+            can_ret = set()
+            st = list(rets)
+            while st:
+                b = st.pop()
+                if b in can_ret:
+                    continue
+                can_ret.add(b)
+                st.extend(p for p in g.pred[b] if p in seen)
+            kname = None
+            for bi, t in f.calls():
+                if not t.get("indirect") and t["callee"].endswith("kmer::Kmer::new"):
+                    ke = strip_tags(ex.operand(t["args"][0]))
+                    ps = [x for x in walk(ke) if isinstance(x, tuple) and x[0] == "param"]
+                    kname = ps[0] if ps else None
+            for b in sorted(seen):
+                tt = f.blocks[b]["term"]
+                if tt["k"] != "switch" or tt["sp"].get("exp"):
+                    continue
+                arms = [(v, tb) for v, tb in tt["targets"]] + [(None, tt["otherwise"])]
+                byp = [(v, tb) for v, tb in arms if tb in can_ret and tb != head and not _reaches(g, tb, head, seen)]
+                goes = [(v, tb) for v, tb in arms if tb == head or _reaches(g, tb, head, seen)]
+                if not (byp and goes):
+                    continue
+                nby += 1
+                e = strip_tags(ex.operand(tt["discr"]))
+                truth = None
+                if len(tt["targets"]) == 1 and tt["targets"][0][0] == 0:
+                    truth = byp[0][0] is None          # targets [0 -> false arm], otherwise = true arm
+                lens = [x for x in walk(e) if isinstance(x, tuple) and ((x[0] == "call" and x[1].endswith("::len")) or x[0] == "len") and "contig" in fmt(x)]
+                ok = False
+                if truth is not None and lens and kname is not None:
+                    known = cond_to_le0(e, truth) + [{repr(kname): -1, "1": 1}]
+                    target = lin_sub(linear(lens[0]), linear(kname))
+                    target["1"] = target.get("1", 0) + 1           # len - k + 1 <= 0
+                    ok = implies_le0(known, target, unsigned=True)
+                if not ok:
+                    bad.append("%s is %s" % (fmt(e)[:80], truth))
+        rep.ob("C11-P6", "%s skips a contig only when it is shorter than k" % name, not bad, detail="shortcut taken when: %s" % bad if bad else "%d shortcut(s), each implies len < k" % nby,
+               site="%s:%d" % (f.file, f.line_lo), key="C11-P6 | %s | shortcut" % f.key)
+
     # ------------------------------------------------------------ P5
     for n in variants + ["two_pass_splitter_discovery"]:
         f = F.funcs.get(SP + n)
